@@ -13,9 +13,13 @@ CARRIER = re.compile(
     r"|std::time::Duration|std::option::Option<std::time::Duration>|std::time::Instant|std::option::Option<std::time::Instant>"
     r"|std::time::SystemTime|storage::stream::StreamId|std::option::Option<storage::stream::StreamId>"
     r"|std::result::Result<std::option::Option<%(N)s>, .*>|std::option::Option<\(%(N)s, %(N)s\)>"
+    r"|std::sync::atomic::Atomic<%(N)s>"
     r")$" % {"N": NUM})
 
 PARSE = re.compile(r"^core::str::<impl str>::parse::<(%s)>$" % NUM)
+# hand-written number parsers (not str::parse): the stream-ID parser
+CUSTOM_PARSE = re.compile(r"^storage::stream::StreamId::(parse_u64_fast|from_string)$")
+ATOMIC_STORE = re.compile(r"^std::sync::atomic::Atomic::<%s>::(store|swap|fetch_max|fetch_min|fetch_add|fetch_sub)$" % NUM)
 FILE_SRC = re.compile(r"^storage::rdb::RdbReader::<R>::(read_length|read_u32_be|read_u32_le|read_u64_le|read_byte)$")
 UNTAINT = re.compile(r"::(len|capacity|count|database_count|size_of|elapsed|as_millis|as_secs|now)(::<.*>)?$")
 BOUNDING = re.compile(r"(^std::cmp::(min|max)::<|as std::cmp::Ord>::(min|max|clamp)$|::(clamp|rem_euclid)$)")
@@ -71,6 +75,10 @@ class Taint:
             return "client" if "client" in s.kinds else None
         if FILE_SRC.match(f) and "file" in s.kinds:
             return "file"
+        if CUSTOM_PARSE.match(callee(t)) and not fn.startswith("storage::stream::StreamId::"):
+            if fn.startswith("storage::rdb::"):
+                return "file" if "file" in s.kinds else None
+            return "client" if "client" in s.kinds else None
         return None
 
     def run(s):
@@ -162,6 +170,15 @@ class Taint:
                 c = callee(t)
                 origin = s.src_of_call(fn, t)
                 argt = [s.op_t(T, a) for a in t["a"]]
+                if ATOMIC_STORE.match(f) and len(argt) > 1 and argt[1] and not op_is_const(t["a"][0]):
+                    # a tainted number stored into an atomic: the atomic (its field / the local
+                    # reference) now holds client data
+                    al = op_place(t["a"][0])["l"]
+                    if al not in T and is_carrier(b.locals[al]):
+                        T[al] = argt[1]; changed = True
+                    for fld in prov.operand_origins(b, t["a"][0]).fields:
+                        if "::" in fld and not fld.startswith(("std::", "core::")) and fld not in s.fields:
+                            s.fields[fld] = argt[1]; fld_changed = True
                 if origin is None and any(argt):
                     if c in s.prog.bodies and c in s.scope:
                         # local callee: taint its parameters; result tainted iff its _0 is tainted
@@ -576,6 +593,8 @@ class Taint:
         # call
         f = x["f"] or ""
         args = x["a"]
+        if s.src_of_call(b.fn, x) is not None:
+            return set()      # a source: nothing known about the number it yields
         if re.search(r"^std::cmp::min::<|as std::cmp::Ord>::min$", f) and len(args) == 2:
             A, C = B(args[0]), B(args[1])
             out = set()
